@@ -304,6 +304,11 @@ impl<const NB_PROOFS: usize> LightAggregator<NB_PROOFS> {
         F: Sampleable<T::Hash> + Hashable<T::Hash>,
         u32: Hashable<T::Hash>,
     {
+        // The aggregator circuit exposes exactly two public inputs per inner proof.
+        if instances.iter().any(|inner_instances| inner_instances.len() != 2) {
+            return Err(Error::InvalidInstances);
+        }
+
         // We first verify all proofs off-circuit, to get the final batched accumulator,
         // which must be a public input of the aggregator circuit.
         let proof_accs: Vec<Accumulator<S>> = (proofs.iter())
@@ -322,7 +327,10 @@ impl<const NB_PROOFS: usize> LightAggregator<NB_PROOFS> {
                     &mut inner_transcript,
                 )?;
 
-                assert!(dual_msm.clone().check(&srs.verifier_params()));
+                // An invalid inner proof is an error of the caller, not a bug.
+                if !dual_msm.clone().check(&srs.verifier_params()) {
+                    return Err(Error::Opening);
+                }
 
                 let fixed_bases =
                     midnight_circuits::verifier::fixed_bases::<S>("inner_vk", &self.inner_vk);
